@@ -421,3 +421,242 @@ func ruleRelabelGuardedAndCounted(r *Run) {
 	}
 	r.check(n >= 5, "labels:relabels-and-counts", fmt.Sprintf("%d", n), "too few found: rule needs review", "-")
 }
+
+func init() {
+	register(ruleDef{ID: "R10.8", Prop: "C10", Tier: "quick", Floor: 2,
+		Title: "a replacement is simultaneous: in MergeLabels, ReplaceLabel and ReplaceLabels a store into a table slot that sits inside two or more nested loops is guarded by a test that reads the slot from a different block object than the one written (a slot rewritten by one pass over the same table is examined again by the next pass, so chains and swaps of a mapping collapse)",
+		Fn:    ruleRewriteIsSimultaneous})
+	register(ruleDef{ID: "R10.9", Prop: "C10", Tier: "quick", Floor: 2,
+		Title: "a split supervoxel disappears from every block it is in: in PositionedBlock.SplitSupervoxel and SplitSupervoxels every success return lies behind the loop over the whole voxel array that writes the remainder label (a block the split volume does not touch still has to be relabelled to the remainder, and its kept size reported)",
+		Fn:    ruleRemainderLoopOnEverySuccess})
+}
+
+func ruleRewriteIsSimultaneous(r *Run) {
+	w := r.W
+	fs := c10TableEditFuncs(w)
+	if len(fs) < 3 {
+		r.undecided("labels.Block.{MergeLabels,ReplaceLabel,ReplaceLabels}", "anchor not found")
+		return
+	}
+	n := 0
+	for _, f := range fs {
+		loops := naturalLoops(f)
+		k := 0
+		for _, b := range f.Blocks {
+			for _, in := range b.Instrs {
+				st, ok := in.(*ssa.Store)
+				if !ok {
+					continue
+				}
+				ia, ok := st.Addr.(*ssa.IndexAddr)
+				if !ok || tableOf(ia.X) == "" {
+					continue
+				}
+				depth := 0
+				for _, set := range loops {
+					if set[b] {
+						depth++
+					}
+				}
+				if depth == 0 {
+					continue
+				}
+				k++
+				n++
+				construct := fmt.Sprintf("%s:store-into-%s#%d:simultaneous", fname(f), tableOf(ia.X), k)
+				if depth == 1 {
+					r.check(true, construct, "the store sits in a single pass over the table", "", w.pos(st.Pos()))
+					continue
+				}
+				// nested: every guarding test that reads a table slot reads it from another object
+				written := blockObjectOf(ia.X)
+				bad := ""
+				for _, gb := range f.Blocks {
+					if len(gb.Instrs) == 0 {
+						continue
+					}
+					ifi, ok := gb.Instrs[len(gb.Instrs)-1].(*ssa.If)
+					if !ok || !(guardedByEdge(ifi, 0, st) || guardedByEdge(ifi, 1, st)) {
+						continue
+					}
+					for d := range dataDeps(ifi.Cond) {
+						u, ok := d.(*ssa.UnOp)
+						if !ok || u.Op != token.MUL {
+							continue
+						}
+						ia2, ok := u.X.(*ssa.IndexAddr)
+						if !ok || tableOf(ia2.X) == "" {
+							continue
+						}
+						if blockObjectOf(ia2.X) == written {
+							bad = w.pos(u.Pos())
+						}
+					}
+				}
+				r.check(bad == "", construct, "the nested rewrite tests slots of another block object than the one it writes",
+					"a slot of the table is rewritten inside nested loops and the test that selects it reads the same table ("+bad+"): a slot rewritten for one entry of the mapping is examined again for the next entry, so a mapping with chains or swaps (a→b, b→c) sends a's voxels to c — the replacement is sequential, the voxel-wise reference is simultaneous", w.pos(st.Pos()))
+			}
+		}
+	}
+	r.check(n >= 4, "labels:table-stores-in-loops", fmt.Sprintf("%d", n), "too few stores found: rule needs review", "-")
+}
+
+// blockObjectOf: the value (parameter, allocation, ...) whose Labels/SBIndices field v is a load of.
+func blockObjectOf(v ssa.Value) ssa.Value {
+	u, ok := v.(*ssa.UnOp)
+	if !ok {
+		return v
+	}
+	fa, ok := u.X.(*ssa.FieldAddr)
+	if !ok {
+		return v
+	}
+	x := fa.X
+	for i := 0; i < 6; i++ {
+		if u2, ok := x.(*ssa.UnOp); ok && u2.Op == token.MUL {
+			x = u2.X
+			continue
+		}
+		break
+	}
+	return x
+}
+
+func ruleRemainderLoopOnEverySuccess(r *Run) {
+	w := r.W
+	n := 0
+	for _, name := range []string{"SplitSupervoxel", "SplitSupervoxels"} {
+		f := w.method("datatype/common/labels", "PositionedBlock", name)
+		if f == nil || len(f.Blocks) == 0 {
+			r.undecided("labels.PositionedBlock."+name, "anchor not found")
+			continue
+		}
+		// the remainder loop: a loop that stores into a []uint64 a value read from a field whose name starts with Remain
+		var header *ssa.BasicBlock
+		for _, b := range f.Blocks {
+			for _, in := range b.Instrs {
+				st, ok := in.(*ssa.Store)
+				if !ok {
+					continue
+				}
+				ia, ok := st.Addr.(*ssa.IndexAddr)
+				if !ok {
+					continue
+				}
+				if sl, ok := ia.X.Type().Underlying().(*types.Slice); !ok || sl.Elem().String() != "uint64" {
+					continue
+				}
+				fromRemain := false
+				for d := range dataDeps(st.Val) {
+					switch x := d.(type) {
+					case *ssa.FieldAddr:
+						if nm, _, _ := fieldName(x); strings.HasPrefix(nm, "Remain") {
+							fromRemain = true
+						}
+					case *ssa.Field:
+						if sty, ok := x.X.Type().Underlying().(*types.Struct); ok && strings.HasPrefix(sty.Field(x.Field).Name(), "Remain") {
+							fromRemain = true
+						}
+					}
+				}
+				if !fromRemain {
+					continue
+				}
+				if h, _, _ := innermostLoop(f, b); h != nil {
+					header = h
+				}
+			}
+		}
+		if header == nil {
+			r.violation(fname(f)+":remainder-loop", "no loop that writes the remainder label into the voxel array was found: voxels of the split supervoxel outside the split volume keep the retired id", w.fpos(f))
+			continue
+		}
+		n++
+		first := header.Instrs[0]
+		pth := findPath(f, nil, func(x ssa.Instruction) bool { return x == first }, successExit, nil)
+		r.check(pth == nil, fname(f)+":success-behind-the-remainder-loop", "every success return lies behind the remainder loop",
+			"a success return can be reached without running the loop that relabels the rest of the supervoxel to its remainder id: in a block the split volume does not touch the retired supervoxel id stays in the voxels (and the kept size is reported as 0) while the index and the mapping say it is gone", w.fpos(f), w.renderPath(pth)...)
+	}
+	r.check(n >= 2, "labels:remainder-loops", fmt.Sprintf("%d", n), "too few found: rule needs review", "-")
+}
+
+func init() {
+	register(ruleDef{ID: "R10.10", Prop: "C10", Tier: "quick", Floor: 2,
+		Title: "the voxel count of a table slot counts every position that refers to it: in labels.Block.getNumVoxels (the count ReplaceLabel reports) the per-voxel decision in a multi-label sub-block is a lookup in a per-position table filled by the scan of the sub-block's index list — not a comparison of the packed value with one remembered position, which loses all but the last of several positions that name the same slot after a merge",
+		Fn:    ruleSlotCountUsesPositionTable})
+}
+
+func ruleSlotCountUsesPositionTable(r *Run) {
+	w := r.W
+	f := w.method("datatype/common/labels", "Block", "getNumVoxels")
+	if f == nil || len(f.Blocks) == 0 {
+		r.undecided("labels.Block.getNumVoxels", "anchor not found")
+		return
+	}
+	loops := naturalLoops(f)
+	depthOf := func(b *ssa.BasicBlock) int {
+		d := 0
+		for _, set := range loops {
+			if set[b] {
+				d++
+			}
+		}
+		return d
+	}
+	n := 0
+	for _, b := range f.Blocks {
+		for _, in := range b.Instrs {
+			bo, ok := in.(*ssa.BinOp)
+			if !ok || bo.Op != token.ADD || bo.Type().String() != "uint64" {
+				continue
+			}
+			if k, ok := constInt(bo.Y); !ok || k != 1 {
+				continue
+			}
+			if depthOf(b) < 5 {
+				continue // not the per-voxel walk
+			}
+			n++
+			// the nearest test that guards the increment
+			viaTable := false
+			scalarCompare := ""
+			for _, gb := range f.Blocks {
+				if len(gb.Instrs) == 0 {
+					continue
+				}
+				ifi, ok := gb.Instrs[len(gb.Instrs)-1].(*ssa.If)
+				if !ok || depthOf(gb) < 5 || !(guardedByEdge(ifi, 0, bo) || guardedByEdge(ifi, 1, bo)) {
+					continue
+				}
+				for d := range dataDeps(ifi.Cond) {
+					u, ok := d.(*ssa.UnOp)
+					if !ok || u.Op != token.MUL {
+						continue
+					}
+					ia, ok := u.X.(*ssa.IndexAddr)
+					if !ok {
+						continue
+					}
+					if tableOf(ia.X) != "" || isFieldLoad(ia.X, "Block", "SBValues") || isFieldLoad(ia.X, "Block", "NumSBLabels") {
+						continue
+					}
+					if _, isK := constInt(ia.Index); isK {
+						continue
+					}
+					switch ia.X.(type) {
+					case *ssa.Alloc, *ssa.MakeSlice:
+						viaTable = true
+					}
+				}
+				if cmp, ok := ifi.Cond.(*ssa.BinOp); ok && cmp.Op == token.EQL {
+					if _, isPhi := stripConv(cmp.Y).(*ssa.Phi); isPhi {
+						scalarCompare = w.pos(cmp.Pos())
+					}
+				}
+			}
+			r.check(viaTable, fmt.Sprintf("getNumVoxels:per-voxel-count#%d:position-table", n), "the per-voxel decision is a lookup in a per-position table",
+				"the per-voxel decision compares the packed value with a single remembered position ("+scalarCompare+"): when a sub-block's index list names the slot at two positions — the normal state after a merge — the voxels stored under the first position are not counted, and ReplaceLabel reports fewer voxels than it replaces", w.pos(bo.Pos()))
+		}
+	}
+	r.check(n >= 1, "getNumVoxels:per-voxel-counts", fmt.Sprintf("%d", n), "none found: rule needs review", w.fpos(f))
+}
